@@ -143,7 +143,8 @@ def check(ctx, mps):
     for e in fsm.out_edges(R):
         if e.dst in (S, A):
             want_fill = (rf, e.dst == S)
-            ok = INTOK <= q.atoms(e) and want_fill in q.atoms(e) and ('self.discard', False) in q.atoms(e)
+            alt_fill = ('0 == ' + rf, e.dst != S)          # the same test spelled `!= 0` / `.any()`
+            ok = INTOK <= q.atoms(e) and (want_fill in q.atoms(e) or alt_fill in q.atoms(e)) and ('self.discard', False) in q.atoms(e)
             ctx.ob('C11.send-on-in-token', 'USBInTransferManager.staged->%s%s' % (role[e.dst], tag), ok, e.loc,
                    'a staged packet goes out only for an IN token to this endpoint after the gap; zero-length iff the fill count is zero: %s' % q.fmt(e)[:250])
     fz = [e for e in fsm.out_edges(A) if e.dst == R and q.has(e, ACK) and q.has(e, 'self.generate_zlps')]
